@@ -33,9 +33,10 @@ import (
 )
 
 const (
-	numNotifiers = 3
-	numTargets   = 128
-	reentrant    = 6
+	numNotifiers   = 3
+	numTargets     = 128
+	reentrant      = 6  // plain target that calls back into a notifier from HandleNotification
+	reentrantBatch = 10 // batch target that calls back from HandleNotification and from BatchMode
 )
 
 func isBatch(t int) bool {
@@ -58,6 +59,16 @@ type call struct {
 	name  string
 	start bool
 	bad   bool
+	frame int // which Notify invocation made the call (nested invocations from re-entrant targets get their own)
+	n     int // the notifier of that invocation
+}
+
+// frame is one running Notify/NotifyWithData invocation (they nest when a target notifies from inside a callback).
+type frame struct {
+	id       int
+	n        int
+	wantData any
+	wantProd any
 }
 
 type world struct {
@@ -67,9 +78,9 @@ type world struct {
 	calls    []call
 	recs     int
 	shadow   [numNotifiers]map[string]map[int]int // the specification relation: name -> target -> priority
-	wantData any
-	wantProd any
-	armed    []string   // operation the re-entrant target performs inside its next HandleNotification
+	frames   []frame
+	frameSeq int
+	armed    []string   // operation a re-entrant target performs inside its next HandleNotification / BatchMode
 	deferred [][]string // registry updates of fired re-entrant operations, applied after the observation
 	boom     int        // cycles through the panic value kinds
 }
@@ -140,22 +151,35 @@ type plainT struct {
 
 func (t *plainT) HandleNotification(name string, data, producer any) {
 	w := t.w
-	w.calls = append(w.calls, call{t: t.id, name: name, bad: !same(data, w.wantData) || !same(producer, w.wantProd)})
-	if t.id == reentrant && w.armed != nil {
-		f := w.armed
-		w.armed = nil
-		w.implOp(f)
-		w.deferred = append(w.deferred, f)
+	fr := w.frames[len(w.frames)-1]
+	w.calls = append(w.calls, call{t: t.id, name: name, frame: fr.id, n: fr.n,
+		bad: !same(data, fr.wantData) || !same(producer, fr.wantProd)})
+	if t.id == reentrant || t.id == reentrantBatch {
+		w.fire()
 	}
 	if panics(t.id) {
 		w.explode("handle", t.id)
 	}
 }
 
+// fire performs the armed operation (if any) from inside the running callback.
+func (w *world) fire() {
+	if w.armed == nil {
+		return
+	}
+	f := w.armed
+	w.armed = nil
+	w.doOp(f)
+	w.deferred = append(w.deferred, f)
+}
+
 type batchT struct{ plainT }
 
 func (t *batchT) BatchMode(start bool) {
 	t.w.calls = append(t.w.calls, call{batch: true, t: t.id, start: start})
+	if t.id == reentrantBatch {
+		t.w.fire()
+	}
 	if panics(t.id) {
 		t.w.explode("batch", t.id)
 	}
@@ -206,35 +230,49 @@ func (w *world) observe(n int) string {
 	var hs []hc
 	var bs []call
 	order := "order-ok"
+	last := make(map[int]hc) // per Notify invocation: the previous call
 	for _, c := range w.calls {
 		if c.batch {
 			bs = append(bs, c)
 			continue
 		}
-		p, ok := w.shadowPrio(n, c.t, c.name)
-		if len(hs) > 0 && (!ok || !hs[len(hs)-1].have || hs[len(hs)-1].p < p) {
+		p, ok := w.shadowPrio(c.n, c.t, c.name)
+		if prev, seen := last[c.frame]; seen && (!ok || !prev.have || prev.p < p) {
 			order = "order-bad"
 		}
-		hs = append(hs, hc{c: c, p: p, have: ok})
+		h := hc{c: c, p: p, have: ok}
+		last[c.frame] = h
+		hs = append(hs, h)
+	}
+	tok := func(h hc) string {
+		p := "?"
+		if h.have {
+			p = strconv.Itoa(h.p)
+		}
+		t := fmt.Sprintf("h%d:%s:%s", h.c.t, p, hx.Hex([]byte(h.c.name)))
+		if h.c.bad {
+			t += "!data"
+		}
+		return t
 	}
 	sort.SliceStable(hs, func(i, j int) bool {
 		if hs[i].p != hs[j].p {
 			return hs[i].p > hs[j].p
 		}
-		return hs[i].c.t < hs[j].c.t
+		if hs[i].c.t != hs[j].c.t {
+			return hs[i].c.t < hs[j].c.t
+		}
+		return tok(hs[i]) < tok(hs[j])
 	})
-	sort.SliceStable(bs, func(i, j int) bool { return bs[i].t < bs[j].t })
+	sort.SliceStable(bs, func(i, j int) bool {
+		if bs[i].t != bs[j].t {
+			return bs[i].t < bs[j].t
+		}
+		return !bs[i].start && bs[j].start
+	})
 	toks := []string{order}
 	for _, h := range hs {
-		p := "?"
-		if h.have {
-			p = strconv.Itoa(h.p)
-		}
-		tok := fmt.Sprintf("h%d:%s:%s", h.c.t, p, hx.Hex([]byte(h.c.name)))
-		if h.c.bad {
-			tok += "!data"
-		}
-		toks = append(toks, tok)
+		toks = append(toks, tok(h))
 	}
 	for _, b := range bs {
 		v := 0
@@ -246,9 +284,6 @@ func (w *world) observe(n int) string {
 	e := 0
 	if w.ns[n].Enabled() {
 		e = 1
-	}
-	if n == 2 {
-		w.recs = 0 // nil recovery handler
 	}
 	out := fmt.Sprintf("%s | rec=%d | L%d E%d", strings.Join(toks, " "), w.recs, w.ns[n].BatchLevel(), e)
 	w.calls = w.calls[:0]
@@ -264,10 +299,33 @@ func idx(s string, lim int) int {
 	return v
 }
 
-// implOp performs a state-changing operation on the real notifier (no observation, no registry update).
-func (w *world) implOp(f []string) {
+// doOp performs an operation on the real notifier (no observation, no registry update); false = not an operation.
+func (w *world) doOp(f []string) bool {
 	n := idx(f[1], numNotifiers)
 	switch f[0] {
+	case "start":
+		w.ns[n].StartBatch()
+	case "end":
+		w.ns[n].EndBatch()
+	case "notify":
+		w.frameSeq++
+		fr := frame{id: w.frameSeq, n: n, wantProd: w.ns[n]}
+		if len(f) > 3 { // nil producer
+			fr.wantProd = nil
+		}
+		w.frames = append(w.frames, fr)
+		w.ns[n].Notify(string(hx.UnHex(f[2])), fr.wantProd)
+		w.frames = w.frames[:len(w.frames)-1]
+	case "notifyd":
+		k := 3
+		if len(f) > 3 {
+			k = hx.Atoi(f[3])
+		}
+		w.frameSeq++
+		fr := frame{id: w.frameSeq, n: n, wantData: w.dataKind(k), wantProd: w}
+		w.frames = append(w.frames, fr)
+		w.ns[n].NotifyWithData(string(hx.UnHex(f[2])), fr.wantData, w)
+		w.frames = w.frames[:len(w.frames)-1]
 	case "reg":
 		names := make([]string, 0, len(f)-4)
 		for _, h := range f[4:] {
@@ -283,8 +341,9 @@ func (w *world) implOp(f []string) {
 	case "nreset":
 		w.ns[n].Reset()
 	default:
-		panic("implOp " + f[0])
+		return false
 	}
+	return true
 }
 
 // shadowOp is the same operation on the harness' registry (the specification relation).
@@ -349,38 +408,21 @@ func (a *area) Run(line string) string {
 	}
 	n := idx(f[1], numNotifiers)
 	switch f[0] {
-	case "reg", "unreg", "merge", "enable", "nreset":
-		w.implOp(f)
-		w.shadowOp(f)
-	case "arm": // arm <n> <op...>: the re-entrant target will execute <op...> inside its next HandleNotification
+	case "arm": // arm <n> <op...>: a re-entrant target will execute <op...> inside its next callback
 		switch f[2] {
-		case "reg", "unreg", "merge", "enable", "nreset":
+		case "reg", "unreg", "merge", "enable", "nreset", "start", "end", "notify", "notifyd":
 			idx(f[3], numNotifiers)
 			w.armed = f[2:]
 		default:
 			return "bad-op"
 		}
-	case "start":
-		w.ns[n].StartBatch()
-	case "end":
-		w.ns[n].EndBatch()
-	case "notify":
-		w.wantData, w.wantProd = nil, w.ns[n]
-		if len(f) > 3 { // nil producer
-			w.wantProd = nil
-		}
-		w.ns[n].Notify(string(hx.UnHex(f[2])), w.wantProd)
-	case "notifyd":
-		k := 3
-		if len(f) > 3 {
-			k = hx.Atoi(f[3])
-		}
-		w.wantData, w.wantProd = w.dataKind(k), w
-		w.ns[n].NotifyWithData(string(hx.UnHex(f[2])), w.wantData, w)
 	case "dump":
 		return dump(w, n)
 	default:
-		return "bad-op"
+		if !w.doOp(f) {
+			return "bad-op"
+		}
+		w.shadowOp(f)
 	}
 	out := w.observe(n)
 	for _, d := range w.deferred {
